@@ -14,6 +14,7 @@ import itertools
 import numpy as np
 
 from ..poly import z3mod
+from ..cprog import MalformedProgram
 from ..tv import Compiled, hold_terms, project_block
 from ..oracle import cons_eval
 from .. import detgen
@@ -82,8 +83,22 @@ def run_model(spec, ses):
     z3 = z3mod()
     name = spec['name']
     tower = spec['atom'] in TOWER_ATOMS or spec.get('base') in ('power3', 'gmean')
-    with quiet():
-        cm = Compiled(detgen.desc_from_spec(spec), abstract_towers=tower, front=spec.get('front', 'ro'))
+    try:
+        with quiet():
+            cm = Compiled(detgen.desc_from_spec(spec), abstract_towers=tower, front=spec.get('front', 'ro'))
+    except HarnessError:
+        raise
+    except MalformedProgram as e:
+        data = dict(spec=spec, malformed=str(e))
+        finding(ses, '%s:%s:malformed' % (PROP, spec['name']), 'model %s: %s' % (spec['name'], e), data,
+                'rsv.props.%s:replay' % PROP.lower())
+        return
+    except Exception as e:
+        if not spec.get('may_raise'):
+            raise
+        # RSOME refuses the expression loudly: allowed ("where an operation is not supported it raises")
+        ses.stats.kinds['member-rejected-by-rsome'] = ses.stats.kinds.get('member-rejected-by-rsome', 0) + 1
+        return
     ses.stats.programs += 1
     cp = cm.cp
     vs = cp.z3vars()
@@ -91,6 +106,12 @@ def run_model(spec, ses):
     S = []
     for row in cm.rows():
         S += hold_terms(row, env, z3)
+    # binary decisions take values in {0, 1} (the integrality itself comes with the z3 sort of the column)
+    for nm, arr, vt in cm.o.dvars:
+        if vt == 'B' or (len(vt) > 1 and 'B' in vt):
+            for i, p_ in enumerate(arr.reshape(-1)):
+                if vt == 'B' or vt[i] == 'B':
+                    S += [env.p(p_) >= 0, env.p(p_) <= 1]
     Sdefs = env.defs
     iface_cols = sorted(set(cm.iface.values()))
     tol = is_tol(spec)
@@ -332,6 +353,15 @@ def replay(data, verbose=False):
             return rep is not None
         return rep is None or abs(rep - float(Fraction(data['optS']))) > 1e-6
     spec = data['spec']
+    if 'malformed' in data:
+        try:
+            with quiet():
+                Compiled(detgen.desc_from_spec(spec), front=spec.get('front', 'ro'))
+        except MalformedProgram as e:
+            if verbose:
+                print('model %s: %s' % (spec['name'], e))
+            return True
+        return False
     with quiet():
         cm = Compiled(detgen.desc_from_spec(spec), front=spec.get('front', 'ro'))
     f = cm.formula
